@@ -37,7 +37,8 @@ package kmipserver
 //@ func (*BatchExecutor).handleRequest
 //@   requires execOK(exec) && req != nil && ctx != nil && (0 < len(exec.biMiddlewares) ==> exec.biMiddlewares[0] != nil)
 //@   requires forall j int :: 0 <= j && j < len(req.BatchItem) ==> itemOK(req.BatchItem[j])
-//@   ensures nomw(exec) ==> (rejected(exec, req) ==> r1 != nil && r0 == nil && itemCalls == old(itemCalls))
+//@   ensures rejected(exec, req) ==> r1 != nil && r0 == nil
+//@   ensures nomw(exec) ==> (rejected(exec, req) ==> itemCalls == old(itemCalls))
 //@   ensures !rejected(exec, req) ==> r1 == nil && r0 != nil && isnew(r0) && len(r0.BatchItem) == len(req.BatchItem)
 //@   ensures !rejected(exec, req) ==> r0.Header.BatchCount == req.Header.BatchCount && r0.Header.ProtocolVersion == req.Header.ProtocolVersion
 //@   ensures nomw(exec) ==> (!rejected(exec, req) ==> forall j int :: 0 <= j && j < len(req.BatchItem) ==> r0.BatchItem[j].Operation == req.BatchItem[j].Operation && r0.BatchItem[j].UniqueBatchItemID == req.BatchItem[j].UniqueBatchItemID)
@@ -50,6 +51,7 @@ package kmipserver
 //@   ghostmod biCalls, biSelf, biNext, biCtx, biItem, biRet, biErr, itemCalls, itemCtx, itemItem, itemRet, itemErr, handlerCalls
 //@   ghost coreCalls = old(coreCalls) + 1
 //@   ghost coreCtx = ctx
+//@   ghost corePlaceholderAtEntry = old(holder(ctx).idPlaceholder)
 //@   ghost coreMsg = req
 //@   ghost coreRet = r0
 //@   ghost coreErr = r1
@@ -70,8 +72,9 @@ package kmipserver
 //@   ensures i < len(exec.middlewares) ==> mwCalls == old(mwCalls)+1 && coreCalls == old(coreCalls) && mwSelf == exec.middlewares[i] && mwCtx == ctx && mwMsg == rm && r0 == mwRet && r1 == mwErr
 //@   ensures i < len(exec.middlewares) ==> isclosure(mwNext, "(*BatchExecutor).nextAt$1") && capt(mwNext, "i") == i+1 && capt(mwNext, "exec") == exec
 //@   ensures i >= len(exec.middlewares) ==> mwCalls == old(mwCalls) && coreCalls == old(coreCalls)+1 && coreCtx == ctx && coreMsg == rm && r0 == coreRet && r1 == coreErr
+//@   ensures i >= len(exec.middlewares) ==> corePlaceholderAtEntry == old(holder(ctx).idPlaceholder) && ((r0 == nil) == (r1 != nil))
 //@   ensures i == old(i) && exec == old(exec)
-//@   ghostmod mwCalls, mwSelf, mwNext, mwCtx, mwMsg, mwRet, mwErr, coreCalls, coreCtx, coreMsg, coreRet, coreErr, biCalls, biSelf, biNext, biCtx, biItem, biRet, biErr, itemCalls, itemCtx, itemItem, itemRet, itemErr, handlerCalls
+//@   ghostmod mwCalls, mwSelf, mwNext, mwCtx, mwMsg, mwRet, mwErr, coreCalls, coreCtx, coreMsg, coreRet, coreErr, biCalls, biSelf, biNext, biCtx, biItem, biRet, biErr, itemCalls, itemCtx, itemItem, itemRet, itemErr, handlerCalls, handlerCtx, corePlaceholderAtEntry
 //@   modifies holder(ctx).idPlaceholder
 
 // batch-item chain
@@ -142,6 +145,7 @@ package kmipserver
 //@   maypanic
 //@   modifies holder(ctx).idPlaceholder
 //@   ghost handlerCalls = old(handlerCalls) + 1
+//@   ghost handlerCtx = ctx
 
 //@ func (*BatchExecutor).handleDiscover
 //@   requires exec != nil && req != nil
@@ -153,11 +157,57 @@ package kmipserver
 //@   requires execOK(exec) && bi != nil && itemOK(*bi) && ctx != nil
 //@   ensures resp != nil && isnew(resp) && resp.Operation == bi.Operation && resp.UniqueBatchItemID == bi.UniqueBatchItemID
 //@   ensures handlerCalls == old(handlerCalls) || handlerCalls == old(handlerCalls)+1
+//@   ensures handlerCalls == old(handlerCalls)+1 ==> handlerCtx == ctx
 //@   ensures bi.MessageExtension != nil && bi.MessageExtension.CriticalityIndicator ==> handlerCalls == old(handlerCalls) && err != nil
 //@   modifies holder(ctx).idPlaceholder
-//@   ghostmod handlerCalls
+//@   ghostmod handlerCalls, handlerCtx
 //@   ghost itemCalls = old(itemCalls) + 1
 //@   ghost itemCtx = ctx
 //@   ghost itemItem = bi
 //@   ghost itemRet = resp
 //@   ghost itemErr = err
+
+// ---------------------------------------------------------------------------
+// ID placeholder scope (C15)
+
+//@ ghostvar handlerCtx context.Context
+//@ ghostvar corePlaceholderAtEntry string
+
+//@ func newBatchContext
+//@   requires parent != nil
+//@   ensures r0 != nil && typeis(ctxvalue(r0, ctxBatch), *batchData) && holder(r0) != nil && isnew(holder(r0)) && holder(r0).idPlaceholder == "" && holder(r0).header == hdr
+//@   ensures ctxvalue(r0, ctxConn) == ctxvalue(parent, ctxConn)
+//@   pure
+
+//@ func IdPlaceholder
+//@   requires ctx != nil
+//@   ensures typeis(ctxvalue(ctx, ctxBatch), *batchData) && holder(ctx) != nil ==> r0 == holder(ctx).idPlaceholder
+//@   ensures !typeis(ctxvalue(ctx, ctxBatch), *batchData) || holder(ctx) == nil ==> r0 == ""
+//@   pure
+
+//@ func SetIdPlaceholder
+//@   requires ctx != nil && typeis(ctxvalue(ctx, ctxBatch), *batchData) && holder(ctx) != nil
+//@   ensures holder(ctx).idPlaceholder == id
+//@   modifies holder(ctx).idPlaceholder
+
+//@ func ClearIdPlaceholder
+//@   requires ctx != nil
+//@   ensures typeis(ctxvalue(ctx, ctxBatch), *batchData) && holder(ctx) != nil ==> holder(ctx).idPlaceholder == ""
+//@   modifies holder(ctx).idPlaceholder
+
+//@ func GetIdOrPlaceholder
+//@   requires ctx != nil
+//@   ensures reqId != "" ==> r0 == reqId && r1 == nil
+//@   ensures reqId == "" && typeis(ctxvalue(ctx, ctxBatch), *batchData) && holder(ctx) != nil && holder(ctx).idPlaceholder != "" ==> r0 == holder(ctx).idPlaceholder && r1 == nil
+//@   ensures r1 != nil ==> r0 == ""
+//@   pure
+
+// HandleRequest creates the placeholder holder of this request: fresh, empty, and it is the one the chain sees.
+//@ func (*BatchExecutor).HandleRequest
+//@   requires execOK(exec) && req != nil && ctx != nil && (0 < len(exec.middlewares) ==> exec.middlewares[0] != nil) && (0 < len(exec.biMiddlewares) ==> exec.biMiddlewares[0] != nil)
+//@   requires forall j int :: 0 <= j && j < len(req.BatchItem) ==> itemOK(req.BatchItem[j])
+//@   ensures len(exec.middlewares) == 0 ==> r0 != nil
+//@   ensures len(exec.middlewares) == 0 ==> coreCalls == old(coreCalls)+1 && coreMsg == req && typeis(ctxvalue(coreCtx, ctxBatch), *batchData) && isnew(holder(coreCtx)) && corePlaceholderAtEntry == ""
+//@   ensures len(exec.middlewares) == 0 ==> ctxvalue(coreCtx, ctxConn) == ctxvalue(ctx, ctxConn)
+//@   ensures 0 < len(exec.middlewares) ==> mwCalls == old(mwCalls)+1 && mwMsg == req && mwSelf == exec.middlewares[0] && typeis(ctxvalue(mwCtx, ctxBatch), *batchData) && isnew(holder(mwCtx))
+//@   ghostmod mwCalls, mwSelf, mwNext, mwCtx, mwMsg, mwRet, mwErr, coreCalls, coreCtx, coreMsg, coreRet, coreErr, biCalls, biSelf, biNext, biCtx, biItem, biRet, biErr, itemCalls, itemCtx, itemItem, itemRet, itemErr, handlerCalls, handlerCtx, corePlaceholderAtEntry
